@@ -5,10 +5,8 @@
 
 #[path = "/repo/datacake-crdt/src/timestamp.rs"]
 pub mod timestamp;
-#[path = "/verif/contracts/kernels.rs"]
-pub mod kernels;
-#[path = "/verif/contracts/specset.rs"]
-pub mod specset;
+#[path = "/verif/contracts/recset.rs"]
+pub mod recset;
 
 pub use timestamp::HLCTimestamp;
 
@@ -25,8 +23,18 @@ impl vcoll::Havoc for HLCTimestamp {
     }
 }
 
+impl vcoll::VKey for HLCTimestamp {
+    fn vkey(&self) -> u64 {
+        self.as_u64()
+    }
+}
+
 pub mod env;
 pub use env::spawn_keyspace;
 
 #[path = "/verif/build/group/gen/group.rs"]
 pub mod group;
+
+/// caller-side copy: only load_states_from_storage is sliced; load_states is the contract stub in prelude_caller.rs
+#[path = "/verif/build/group/gen/group_caller.rs"]
+pub mod group_caller;
